@@ -41,7 +41,10 @@ class ListenerPool:
         hostnames = {self.flags.hostname, *self.flags.hostnames}
         ports = list(self.flags.ports)
         if not self.flags.unix_socket_path:
-            ports.append(self.flags.port)
+            # Primary port always comes first, proxy.Proxy.setup
+            # reads the (possibly ephemeral) port it got bound to
+            # from the first listener.
+            ports.insert(0, self.flags.port)
         for hostname, port in itertools.product(hostnames, ports):
             self.add(TcpSocketListener, hostname=hostname, port=port)
 
